@@ -46,6 +46,26 @@ pub fn gen_case(r: &mut Rng) -> GainsCase {
         rows.push(mk(d0 + 40 + 400, "Sell", 5, 0));
         rows.sort_by_key(|x| x.settle_jd);
     }
+    // a loss of exactly half a cent (1 share bought at 1.005, sold at 1.000): shown as -$0.01
+    if r.chance(15) {
+        let d0 = crate::appgen::START_JD + 20 + r.range(0, 300) as i32;
+        let mk = |day: i32, action: &'static str, px: i64| crate::appgen::GenRow {
+            sec: "HLF".to_string(),
+            trade_jd: day,
+            settle_jd: day,
+            action,
+            shares: Some(rust_decimal::Decimal::ONE),
+            price: Some(rust_decimal::Decimal::new(px, 3)),
+            comm: Some(rust_decimal::Decimal::ZERO),
+            cur: "CAD",
+            rate: None,
+            split: None,
+            aff: String::new(),
+        };
+        rows.push(mk(d0, "Buy", 1005));
+        rows.push(mk(d0 + 45, "Sell", 1000));
+        rows.sort_by_key(|x| x.settle_jd);
+    }
     GainsCase { csv: csv_text(&rows) }
 }
 
